@@ -75,6 +75,15 @@ def main():
         for j in meta["detect"]:
             sigs, inconc, evals = run_job(j)
             res.append({"job": j, "evaluations": evals, "signatures": sigs, "inconclusive": inconc})
+        # signatures listed as known findings do not make a check fail: they do not count
+        known = set()
+        for line in open(os.path.join(ROOT, "known_findings.jsonl")):
+            f = json.loads(line)
+            if f.get("status") == "known":
+                known.add(f'{f["property"]}:{f["signature"]}')
+        for r in res:
+            r["known_finding_signatures"] = {k: v for k, v in r["signatures"].items() if k in known}
+            r["signatures"] = {k: v for k, v in r["signatures"].items() if k not in known}
         caught = any(r["signatures"] for r in res)
         json.dump({"caught": caught, "runs": res, "repo_head": sh("git -C /repo rev-parse --short HEAD").stdout.strip()},
                   open(os.path.join(d, "result.json"), "w"), indent=1)
